@@ -9,6 +9,8 @@ use yata::helpers::MA;
 fn code_val(c: i64) -> ValueType {
 	match c {
 		9000 => ValueType::NAN,
+		7000 => ValueType::MAX * 0.7,
+		-7000 => -ValueType::MAX * 0.7,
 		8000 => ValueType::INFINITY,
 		-8000 => ValueType::NEG_INFINITY,
 		v => v as ValueType,
@@ -32,6 +34,23 @@ pub fn replay(args: &[String]) {
 	let rows = read_lines(&args[0]);
 	let mut out = Sink::new();
 	for r in &rows {
+		if let Some(xs) = r.get("xs").and_then(Value::as_array) {
+			// Sequence<ValueType>::validate on every prefix of the triple and of its reverse, as slice and as Vec
+			let v: Vec<ValueType> = xs.iter().map(|c| code_val(c.as_i64().unwrap())).collect();
+			let w: Vec<ValueType> = v.iter().rev().copied().collect();
+			for (vals, exp) in [(&v, &r["valid"]), (&w, &r["valid_rev"])] {
+				for n in 1..=3usize {
+					let e = exp[n - 1].as_i64().unwrap() == 1;
+					let (sl, vc): (&[ValueType], Vec<ValueType>) = (&vals[..n], vals[..n].to_vec());
+					let got = (catch(|| Sequence::<ValueType>::validate(&sl)), catch(|| Sequence::<ValueType>::validate(&vc)));
+					out.checked += 1;
+					if got != (Ok(e), Ok(e)) {
+						out.mismatch("Sequence:validate:value", json!({"values": format!("{:?}", &vals[..n]), "expected": e, "actual": format!("{got:?}")}));
+					}
+				}
+			}
+			continue;
+		}
 		if let Some(valid) = r.get("valid") {
 			// validate grid: (open, high, low) fixed, all (close, volume)
 			let (o, h, l) = (r["o"].as_i64().unwrap(), r["h"].as_i64().unwrap(), r["l"].as_i64().unwrap());
@@ -155,11 +174,20 @@ pub fn record(args: &[String]) {
 			c.close *= 1.5;
 		}
 		let pc = if i % 5 == 0 { prev.close * 1.4 } else if i % 5 == 1 { prev.close * 0.6 } else { prev.close };
+		// Correct floating-point code is exactly invariant under scaling of the prices by a power of two: every third candle is
+		// evaluated on prices scaled by 2^e (penny-stock / huge-index magnitudes) and the results are logged unscaled, so an
+		// absolute constant hidden in a helper shows up although the trace itself stays inside the input band
+		let e: i32 = if cfg!(feature = "value_type_f32") { 0 } else { [0, -60, 0, 0, 70, 0][(i % 6) as usize] };
+		let k = (2.0 as ValueType).powi(e);
+		let ik = (2.0 as ValueType).powi(-e);
+		let cs = Candle { open: c.open * k, high: c.high * k, low: c.low * k, close: c.close * k, volume: c.volume };
+		let pcs = pc * k;
 		let f = |x: ValueType| fx(x as f64);
-		tw.ev(json!({"ev":"candle","c":candle_fx(&c),"pc":f(pc),"tp":f(c.tp()),"hl2":f(c.hl2()),"ohlc4":f(c.ohlc4()),"vp":f(c.volumed_price()),
-			"clv":f(c.clv()),"tr":f(c.tr_close(pc)),"is_rising":c.is_rising(),"is_falling":c.is_falling(),
-			"src":{"close":f(c.source(Source::Close)),"open":f(c.source(Source::Open)),"high":f(c.source(Source::High)),"low":f(c.source(Source::Low)),
-				"volume":f(c.source(Source::Volume)),"tp":f(c.source(Source::TP)),"hl2":f(c.source(Source::HL2)),"volumed_price":f(c.source(Source::VolumedPrice))}}));
+		let g = |x: ValueType| fx((x * ik) as f64);
+		tw.ev(json!({"ev":"candle","c":candle_fx(&c),"pc":f(pc),"tp":g(cs.tp()),"hl2":g(cs.hl2()),"ohlc4":g(cs.ohlc4()),"vp":g(cs.volumed_price()),
+			"clv":f(cs.clv()),"tr":g(cs.tr_close(pcs)),"is_rising":cs.is_rising(),"is_falling":cs.is_falling(),"scale_exp":e,
+			"src":{"close":g(cs.source(Source::Close)),"open":g(cs.source(Source::Open)),"high":g(cs.source(Source::High)),"low":g(cs.source(Source::Low)),
+				"volume":f(cs.source(Source::Volume)),"tp":g(cs.source(Source::TP)),"hl2":g(cs.source(Source::HL2)),"volumed_price":g(cs.source(Source::VolumedPrice))}}));
 		let s = prev + c;
 		tw.ev(json!({"ev":"add","a":candle_fx(&prev),"b":candle_fx(&c),"sum":candle_fx(&s)}));
 		prev = c;
